@@ -358,13 +358,21 @@ Definition dmore (rec : list N -> bool -> option tl_ctor -> result (tv * nat)) (
       else Ok (TVVec acc)
     end.
 
+Definition delem (r : result (tv * nat)) : result (tv * nat) :=
+  bind r (fun '(x, j) =>
+  match x with
+  | TVObj _ xs => match assoc xs "" with Some y => Ok (y, j) | None => Err EIndex end
+  | _ => Err EIndex
+  end).
+
 Definition dloop (rec : list N -> bool -> option tl_ctor -> result (tv * nat)) (tbl : tl_tbl) (d : list N)
-           (elname : string) (named : bool) : nat -> nat -> list tv -> result (nat * list tv) :=
+           (el : tltype) (elname : string) (named : bool) : nat -> nat -> list tv -> result (nat * list tv) :=
   fix loop (k : nat) (i : nat) (acc : list tv) : result (nat * list tv) :=
     match k with
     | O => Ok (i, acc)
     | S k' =>
-        bind (if named then rec (skipn i d) false (by_name tbl elname)
+        bind (if is_base_ty el then delem (rec (skipn i d) false (Some (elem_ctor el)))
+              else if named then rec (skipn i d) false (by_name tbl elname)
               else rec (skipn i d) true None) (fun '(x, j) => loop k' (i + j)%nat (acc ++ [x]))
     end.
 
@@ -403,9 +411,9 @@ Definition dstep (tbl : tl_tbl) (rec : list N -> bool -> option tl_ctor -> resul
   | TVector el elname named =>
       let cnt := of_le (bslice d i (i + 4)) in
       let i1 := (i + 4)%nat in
-      if (N.of_nat (List.length d - i1) <? cnt)%N then Err ETl else
+      if (Z.of_nat (List.length d) - Z.of_nat i1 <? Z.of_N cnt)%Z then Err ETl else
       let n := N.to_nat cnt in
-      bind (dloop rec tbl d elname named n i1 []) (fun '(i2, items) => Ok (i2, fs ++ [(a_field a, TVVec items)]))
+      bind (dloop rec tbl d el elname named n i1 []) (fun '(i2, items) => Ok (i2, fs ++ [(a_field a, TVVec items)]))
   | TBare nm =>
       bind (rec (skipn i d) false (by_name tbl nm)) (fun '(x, j) =>
       let x' := match x with TVObj _ xs => TVObj nm xs | y => y end in
@@ -496,8 +504,7 @@ End NoCap.
 Lemma s_enc_none tbl m ty : s_enc tbl m ty TVNone = None.
 Proof. destruct m; [reflexivity|]. destruct ty as [len [| |]| | | | | | |]; reflexivity. Qed.
 
-Definition flat_ty (ty : tltype) : bool :=
-  match ty with TFixed _ _ | TBytes | TString => true | _ => false end.
+Definition flat_ty (ty : tltype) : bool := is_base_ty ty.
 
 (* ================================================================== *)
 (* 4b. serialisation of the fields of a constructor                     *)
@@ -654,9 +661,9 @@ Lemma dstep_present tbl rec d boxed c i seen a :
   | TVector el elname named =>
       let cnt := of_le (bslice d i (i + 4)) in
       let i1 := (i + 4)%nat in
-      if (N.of_nat (List.length d - i1) <? cnt)%N then Err ETl else
+      if (Z.of_nat (List.length d) - Z.of_nat i1 <? Z.of_N cnt)%Z then Err ETl else
       let n := N.to_nat cnt in
-      bind (dloop rec tbl d elname named n i1 []) (fun '(i2, items) => Ok (i2, seen ++ [(a_field a, TVVec items)]))
+      bind (dloop rec tbl d el elname named n i1 []) (fun '(i2, items) => Ok (i2, seen ++ [(a_field a, TVVec items)]))
   | TBare nm =>
       bind (rec (skipn i d) false (by_name tbl nm)) (fun '(x, j) =>
       let x' := match x with TVObj _ xs => TVObj nm xs | y => y end in
@@ -830,7 +837,7 @@ Proof.
 Qed.
 
 Lemma deser_obj tbl g c fs (boxed : bool) b0 tail ctor :
-  List.length (c_id c) = 4%nat ->
+  (boxed = true -> List.length (c_id c) = 4%nat) ->
   (if boxed then by_id tbl (c_id c) = Some c else ctor = Some c) ->
   fold_left (dstep tbl (deser tbl g) ((if boxed then rev (c_id c) else []) ++ b0 ++ tail)%list boxed c) (c_args c)
             (Ok (List.length (if boxed then rev (c_id c) else []), @nil (string * tv)))
@@ -839,7 +846,7 @@ Lemma deser_obj tbl g c fs (boxed : bool) b0 tail ctor :
     = Ok (TVObj (if boxed then c_name c else "") fs, (List.length (if boxed then rev (c_id c) else []) + List.length b0)%nat).
 Proof.
   intros Hlen Hres Hfold. rewrite deser_S. cbv zeta. destruct boxed.
-  - change (bslice (rev (c_id c) ++ b0 ++ tail) 0 4) with (firstn 4 (rev (c_id c) ++ b0 ++ tail)).
+  - specialize (Hlen eq_refl). change (bslice (rev (c_id c) ++ b0 ++ tail) 0 4) with (firstn 4 (rev (c_id c) ++ b0 ++ tail)).
     rewrite firstn_exact by (rewrite rev_length; exact Hlen). rewrite rev_involutive, Hres.
     rewrite rev_length, Hlen in Hfold. rewrite Hfold. cbn [bind]. rewrite rev_length, Hlen. reflexivity.
   - rewrite Hres. cbn [List.length] in Hfold. rewrite Hfold. reflexivity.
@@ -908,7 +915,7 @@ Proof.
       * intro Hx. subst x. rewrite s_enc_none in He. discriminate.
     + intros a Hin Hc. destruct (Hargs a Hin) as [_ Hn]. congruence.
   - unfold deserialize.
-    pose proof (deser_obj tbl (S g) c fs true (List.concat es) [] None Hlen Hid) as Hd.
+    pose proof (deser_obj tbl (S g) c fs true (List.concat es) [] None (fun _ => Hlen) Hid) as Hd.
     cbv iota in Hd. rewrite app_nil_r in Hd. rewrite app_length. apply Hd.
     pose proof (fields_deser tbl (deser tbl (S g)) (rev (c_id c) ++ List.concat es)%list true c (s_enc tbl 1)
                   (c_args c) fs [] (List.concat es) (rev (c_id c)) []) as Hf.
@@ -1053,12 +1060,13 @@ Qed.
 Lemma some_inj {A} (a b : A) : Some a = Some b -> a = b.
 Proof. congruence. Qed.
 
-Lemma dloop_0 rec tbl d elname named i acc : dloop rec tbl d elname named 0 i acc = Ok (i, acc).
+Lemma dloop_0 rec tbl d el elname named i acc : dloop rec tbl d el elname named 0 i acc = Ok (i, acc).
 Proof. reflexivity. Qed.
-Lemma dloop_S rec tbl d elname named k i acc :
-  dloop rec tbl d elname named (S k) i acc =
-  bind (if named then rec (skipn i d) false (by_name tbl elname) else rec (skipn i d) true None)
-       (fun '(x, j) => dloop rec tbl d elname named k (i + j)%nat (acc ++ [x])%list).
+Lemma dloop_S rec tbl d el elname named k i acc :
+  dloop rec tbl d el elname named (S k) i acc =
+  bind (if flat_ty el then delem (rec (skipn i d) false (Some (elem_ctor el)))
+        else if named then rec (skipn i d) false (by_name tbl elname) else rec (skipn i d) true None)
+       (fun '(x, j) => dloop rec tbl d el elname named k (i + j)%nat (acc ++ [x])%list).
 Proof. reflexivity. Qed.
 
 Lemma s_elems_len enc el : forall l bs, s_elems_with enc el l = Some bs -> (List.length l <= List.length bs)%nat.
@@ -1158,11 +1166,11 @@ Section General.
   Qed.
 
   Lemma loop_ok m' (Hsub : forall k, (k < S m')%nat -> Qobj k) G' d el elname named tail :
-    (m' <= G')%nat -> s_vector_supported el elname named = true ->
+    (S m' <= G')%nat -> s_vector_supported el elname named = true ->
     forall l bs pre acc,
     s_elems_with (s_enc tbl m') el l = Some bs -> forallb (no_auto_capture tbl) l = true ->
     d = (pre ++ bs ++ tail)%list ->
-    dloop (deser tbl G') tbl d elname named (List.length l) (List.length pre) acc
+    dloop (deser tbl G') tbl d el elname named (List.length l) (List.length pre) acc
     = Ok ((List.length pre + List.length bs)%nat, (acc ++ l)%list).
   Proof.
     intros HG Hsup. induction l as [|x r IH]; intros bs pre acc H Hcap Hd.
@@ -1177,20 +1185,31 @@ Section General.
       { rewrite Hd, skipn_at, <- app_assoc. reflexivity. }
       rewrite Hsk.
       assert (Hsub' : forall k, (k < m')%nat -> Qobj k) by (intros k Hk; apply Hsub; lia).
-      assert (Hx : (if named then deser tbl G' (e ++ b2 ++ tail)%list false (by_name tbl elname)
+      assert (HG' : (m' <= G')%nat) by lia.
+      assert (Hx : (if flat_ty el then delem (deser tbl G' (e ++ b2 ++ tail)%list false (Some (elem_ctor el)))
+                    else if named then deser tbl G' (e ++ b2 ++ tail)%list false (by_name tbl elname)
                     else deser tbl G' (e ++ b2 ++ tail)%list true None) = Ok (x, List.length e)).
-      { unfold s_vector_supported in Hsup.
-        destruct el as [len k| | |cls|nm|el0 en0 named0|nm|]; try discriminate; destruct named; try discriminate.
-        - (* boxed elements *)
-          destruct m' as [|m'']; [discriminate|].
-          destruct x as [| | | | |n fs|l0|]; try discriminate.
-          exact (objval_deser (S m'') Hsub' (TBoxed cls) n fs e G' (b2 ++ tail)%list Ee Hc1 HG).
-        - (* bare elements *)
-          apply String.eqb_eq in Hsup. subst elname.
-          destruct m' as [|m'']; [discriminate|].
-          destruct x as [| | | | |n fs|l0|]; try discriminate.
-          cbn [bare_name_ok] in Ebn. apply String.eqb_eq in Ebn. subst n.
-          exact (objval_deser (S m'') Hsub' (TBare nm) "" fs e G' (b2 ++ tail)%list Ee Hc1 HG). }
+      { destruct (flat_ty el) eqn:Hfl.
+        - (* elements of a base type: a one-field argument list *)
+          destruct m' as [|m'']; [discriminate|]. destruct G' as [|g']; [lia|].
+          pose proof (deser_obj tbl g' (elem_ctor el) [(""%string, x)] false e (b2 ++ tail)%list (Some (elem_ctor el))) as Ho.
+          cbn [app List.length Nat.add] in Ho. rewrite Ho; [reflexivity|discriminate|reflexivity|].
+          cbn [elem_ctor c_args fold_left].
+          exact (step_flat tbl (deser tbl g') (e ++ b2 ++ tail)%list false (elem_ctor el) (S m'')
+                   (mkArg ""%string None false el) x e [] [] (b2 ++ tail)%list
+                   (deser_passes tbl g' ltac:(lia)) Hfl Ee Hc1 eq_refl eq_refl).
+        - unfold s_vector_supported in Hsup.
+          destruct el as [len k| | |cls|nm|el0 en0 named0|nm|]; try discriminate; destruct named; try discriminate.
+          + (* boxed elements *)
+            destruct m' as [|m'']; [discriminate|].
+            destruct x as [| | | | |n fs|l0|]; try discriminate.
+            exact (objval_deser (S m'') Hsub' (TBoxed cls) n fs e G' (b2 ++ tail)%list Ee Hc1 HG').
+          + (* bare elements *)
+            apply String.eqb_eq in Hsup. subst elname.
+            destruct m' as [|m'']; [discriminate|].
+            destruct x as [| | | | |n fs|l0|]; try discriminate.
+            cbn [bare_name_ok] in Ebn. apply String.eqb_eq in Ebn. subst n.
+            exact (objval_deser (S m'') Hsub' (TBare nm) "" fs e G' (b2 ++ tail)%list Ee Hc1 HG'). }
       rewrite Hx. cbn [bind]. rewrite <- app_length.
       rewrite (IH b2 (pre ++ e)%list (acc ++ [x])%list eq_refl Hc2) by (rewrite Hd, <- !app_assoc; reflexivity).
       rewrite !app_length, <- !app_assoc. f_equal. f_equal. lia.
@@ -1239,11 +1258,11 @@ Section General.
       rewrite Hcnt.
       assert (Hdl : List.length d = (List.length pre + 4 + List.length bs + List.length tail)%nat).
       { rewrite Hd. rewrite !app_length. rewrite H4. lia. }
-      destruct (N.ltb_spec (N.of_nat (List.length d - (List.length pre + 4))) (N.of_nat (List.length l))) as [Hbad|_]; [lia|].
+      destruct (Z.ltb_spec (Z.of_nat (List.length d) - Z.of_nat (List.length pre + 4)) (Z.of_N (N.of_nat (List.length l)))) as [Hbad|_]; [lia|].
       rewrite Nat2N.id.
       replace (List.length pre + 4)%nat with (List.length (pre ++ s_u32_le (N.of_nat (List.length l)))%list)
         by (rewrite app_length, H4; reflexivity).
-      rewrite (loop_ok m' Hsub G' d el en named tail ltac:(lia) Hsup l bs _ [] Ee Hcap Hd').
+      rewrite (loop_ok m' Hsub G' d el en named tail HG Hsup l bs _ [] Ee Hcap Hd').
       cbn [bind app]. rewrite !app_length, H4. f_equal. f_equal. lia.
   Qed.
 
@@ -1256,7 +1275,7 @@ Section General.
     destruct (ctor_okb_spec c Hok) as (_ & _ & Hlen & Hne).
     destruct G as [|g]; [lia|].
     rewrite <- app_assoc, app_length.
-    apply (deser_obj tbl g c fs boxed b0 tail ctor Hlen Hres).
+    apply (deser_obj tbl g c fs boxed b0 tail ctor (fun _ => Hlen) Hres).
     pose proof (fields_deser tbl (deser tbl g) ((if boxed then rev (c_id c) else []) ++ b0 ++ tail)%list boxed c
                   (s_enc tbl m) (c_args c) fs [] b0 (if boxed then rev (c_id c) else []) tail) as Hf.
     cbn [app] in Hf. apply Hf; auto.
@@ -1292,36 +1311,27 @@ Theorem roundtrip_table : forall m name fs bytes fuel,
   deserialize tl_table fuel bytes = Ok (TVObj name fs, List.length bytes).
 Proof. exact (roundtrip tl_table table_ok). Qed.
 
-(* Outside the supported types: (vector int), (vector long), (vector int256), (vector bytes), (vector string).
-   "int", "long", "int256", "bytes", "string" are also constructor NAMES of the schema (int ? = Int; ...), so
-   deserialize parses each element as the bare constructor of that name, which has no fields: it returns one empty
-   object per element and does not advance.  Witness: liteServer.getConfigParams mode:# id:tonNode.blockIdExt
-   param_list:(vector int).  33 of the 114 vector fields of the generated table are of this kind. *)
-Definition lastn_is (l suffix : list N) : bool := nlist_eqb (skipn (List.length l - List.length suffix) l) suffix.
-
-Definition vector_int_witness : list (string * tv) :=
-  [("mode", TVInt 0);
-   ("id", TVObj "tonNode.blockIdExt" [("workchain", TVInt (-1)); ("shard", TVInt (-9223372036854775808)); ("seqno", TVInt 7);
-                                      ("root_hash", TVHex (repeat 1%N 32)); ("file_hash", TVHex (repeat 2%N 32))]);
-   ("param_list", TVVec [TVInt 5; TVInt 6])]%string.
-
-Lemma vector_int_refuted :
-  match serialize tl_table 4 "liteServer.getConfigParams" vector_int_witness with
-  | Ok bytes =>
-      List.length bytes = 100%nat /\
-      lastn_is bytes [2; 0; 0; 0; 5; 0; 0; 0; 6; 0; 0; 0]%N = true /\
-      match deserialize tl_table 4 bytes with
-      | Ok (TVObj _ fs, used) => used = 92%nat /\ assoc fs "param_list" = Some (TVVec [TVObj "" []; TVObj "" []])
-      | _ => False
-      end
-  | Err _ => False
+(* What the generated table contains that s_enc does not support: no vector field (all 114 are of a base type, of a
+   bare constructor or of a boxed class), only the 25 constructors with a field whose type the library cannot
+   classify either (TUnsupported: tonlib_api's  vector<T>  syntax,  {t:Type},  # [ t ]). *)
+Fixpoint ty_unsupported (t : tltype) : bool :=
+  match t with
+  | TUnsupported => true
+  | TVector e en nm => negb (s_vector_supported e en nm) || ty_unsupported e
+  | _ => false
   end.
-Proof. vm_compute. repeat split; reflexivity. Qed.
+Definition tl_unsupported_ctors : list string :=
+  ["vector"; "vector"; "vector"; "exportedKey"; "bip39Hints"; "raw.transaction"; "raw.transactions"; "rwallet.config";
+   "accountRevisionList"; "accountList"; "msg.dataEncryptedArray"; "msg.dataDecryptedArray"; "dns.resolved"; "actionMsg";
+   "actionDns"; "query.fees"; "tvm.tuple"; "tvm.list"; "smc.runResult"; "logTags"; "blocks.shards"; "blocks.transactions";
+   "blocks.transactionsExt"; "blocks.header"; "smc.runGetMethod"]%string.
 
-Lemma unsupported_vectors :
+Lemma table_unsupported :
   List.length (flat_map (fun c => filter (fun a => match a_ty a with TVector _ _ _ => true | _ => false end) (c_args c)) tl_table) = 114%nat /\
-  List.length (flat_map (fun c => filter (fun a => match a_ty a with TVector el en nm => negb (s_vector_supported el en nm) | _ => false end) (c_args c)) tl_table) = 33%nat.
-Proof. vm_compute. split; reflexivity. Qed.
+  List.length (flat_map (fun c => filter (fun a => match a_ty a with TVector el en nm => negb (s_vector_supported el en nm) | _ => false end) (c_args c)) tl_table) = 0%nat /\
+  list_string_eqb (map c_name (filter (fun c => existsb (fun a => ty_unsupported (a_ty a)) (c_args c)) tl_table))
+                  tl_unsupported_ctors = true.
+Proof. vm_compute. repeat split; reflexivity. Qed.
 
 (* 2'. the framing on the model itself: any constructor with a single bytes field, any table *)
 Theorem frame_model : forall tbl c fld sc l fuel,
